@@ -9,7 +9,10 @@ ENGINE_FUNCS = [
 # clause groups of the main-loop invariant: the core (J0-J4, G*, W*) is inductive on its own; the laminarity group
 # (J5*, ghost DABS, E3*) and the conformance group (E4*) build on it.  A property selects the groups it needs, so that
 # a defect in the sibling bookkeeping is reported against C05 / C06 and not against C03 / C04 / C07 / C08.
-CORE_ONLY = ("J5", "E3", "E4", "DABS")
+# the case-folding view of C04 (J6, its two transition clauses and the three string lemmas) is a group of its own: it is the
+# only part of the engine proof that needs string reasoning and is checked under C04 only
+LOWER_VIEW = ("J6", "E2-original", "E2-context-value", "lower-commutes-with-slice", "slice-of-slice", "full-slice")
+CORE_ONLY = ("J5", "E3", "E4", "DABS") + LOWER_VIEW
 ENGINE_TRUSTED = [
     "A-det: decoders and trusted library calls are deterministic functions of their arguments",
     "A-rec: CPython's recursion limit is not reached (recursion depth <= depth_limit + tree height)",
